@@ -2,6 +2,7 @@ import FluteModel.Lemmas.SessionObjRecv
 import FluteModel.Lemmas.SessionFlush
 import FluteModel.Lemmas.SessionBlock
 import FluteModel.Lemmas.SessionNoCode
+import FluteModel.Lemmas.SessionRsDec
 import FluteModel.Lemmas.SessionLifeLink
 import FluteModel.Lemmas.NoCodeSession
 import FluteModel.Props.C09
@@ -18,19 +19,30 @@ import FluteModel.Props.C09
   `Setting.dec` of the held ESIs, and a completed block has its source block.  (c) is to `Setting.dec` what `GSess.Laws.codec` is to the
   bytes: the FEC crates are not modelled, `Params.codec` is a parameter.
   SCOPE OF (c): PROVED for Compact No-Code (`codec_contract_holds_for_nocode`, any `Params.codec`; concrete instance with every
-  hypothesis discharged: `headline_theorems_apply`, `composed_theorem_applies`).  For RaptorQ / Raptor it is a genuine contract on
-  `Params.codec` (the decoder model appends the pushed (ESI, symbol) pairs; `completed` = "the library returned a block").  For
-  REED-SOLOMON it holds only while blocks complete from their k source symbols: `reconstruct` fills the missing shards of the model's
-  decoder IN PLACE, so after a completing push that used parity the decoder "holds" ESIs that were never received and the membership
-  clause of `CodecDec.push` fails - the relation `SimB.got` would have to forget the ESI set of completed blocks (only "decodable" and
-  "non-empty" are needed of them); NOT DONE, so the link says nothing about RS objects completed through reconstruction.
+  hypothesis discharged: `headline_theorems_apply`, `composed_theorem_applies`) and for REED-SOLOMON from a contract on the two external
+  calls only (`codec_contract_holds_for_rs`, Lemmas/SessionRsDec.lean: the constructor accepts the block sizes, `reconstruct`
+  succeeds whenever at least k shards are present and returns the first k shards - `RsTotal`; the slot table and the two counters of
+  RSGalois8Codec are concrete; `Setting.dec` = "at least k distinct ESIs below k + p"; concrete instance with every hypothesis
+  discharged, received from the PARITY symbol only, i.e. through `reconstruct`: `headline_theorems_apply_rs`).  For that, the model's RS decoder keeps the
+  shard table AS RECEIVED after a successful decode (FecDec.lean `Dec.decode`: the table is dead state once `decode_block` is set; the
+  code leaves the reconstructed table there) - otherwise the decoder would "hold" ESIs that were never received.  For RaptorQ / Raptor
+  (c) is a genuine contract on `Params.codec` (the decoder model appends the pushed (ESI, symbol) pairs; `completed` = "the library
+  returned a block").
     * `receiver_simulation`       - MAIN THEOREM: over every genuine history of one object the ObjRecv run returns and its final state
                                     is related to the Session model's (`Rel`: live object simulated `SimCore`, dead object gone,
                                     writer calls open / complete / error / interrupted = the counters);
     * `session_complete_is_exact` - COROLLARY: the Session model reports `complete`  =>  the ObjRecv writer was told `complete` and
                                     the bytes it accepted are the object (C03 invariants);
     * `counters_are_writer_calls` - the outcome correspondence in both directions;
-    * `objStep_is_stepObj_*`      - `objStep` is literally what `Session.stepObj` does for an existing object.
+    * `objStep_is_stepObj_*`      - `objStep` is literally what `Session.stepObj` does for an existing object;
+    * `runObj_life_is_objRun`, `session_runObj_complete_reaches_objrecv_bytes`, `observe_complete_reaches_objrecv_bytes`,
+      `observe_counters_are_objrecv_writer_calls`
+                                  - THE TWO LAYERS COMPOSED (Lemmas/SessionLifeLink.lean): `Session.runObj` / `Session.observe` - what the
+                                    C01 / C02 / C16 theorems of the Session model conclude about - over ONE LIFE of the object
+                                    (`lifeL`: creation by the first packet, attach at creation, FDT instances listing it; guard
+                                    `aliveRun`) reports `complete`  =>  the ObjRecv writer was told `complete` with exactly the
+                                    object's bytes.  NOT composed: e2e's Recv-level tie `receiver_session_agrees` (multi-object shell
+                                    with the Session model's own object `sobj`) with RecvFull's ObjRecv object.
   DISCHARGED step lemmas (Lemmas/SessionObjRecv.lean, Lemmas/SessionFlush.lean; wrappers below):
     * dead object / already attached object (inside the composition);
     * `cached_packet_step`        - OTI unknown: `cache()` incl. the cache-full error  ~  the cache branch of `pushObj`;
@@ -97,21 +109,21 @@ theorem cached_packet_step (Z : Setting) (hZ : Z.OK) (st st' : St) (os : Session
     Rel Z st' (Session.pushObj Z.dec Z.rc Z.oc os rx s) :=
   push_unknown Z hZ st st' os rx p s hg hr hrec hsim g hoti hin h
 
-/-- DISCHARGED step: with the OTI of a non-empty object known, `push` is `push_to_block` (from `Steps.block_step` on the SAME state) -/
-theorem known_oti_prefix_is_noop (Z : Setting) (H : Steps Z) (st st' : St) (os : Session.OState) (rx : Session.ORx) (p : Pkt)
+/-- DISCHARGED step: with the OTI of a non-empty object known, `push` is `push_to_block` (then the block path on the SAME state) -/
+theorem known_oti_prefix_is_noop (Z : Setting) (hZ : Z.OK) (hC : CodecDec Z) (st st' : St) (os : Session.OState) (rx : Session.ORx) (p : Pkt)
     (s : Session.Sym) (hg : Good Z st) (hr : Rel Z st os) (hrec : st.state = .receiving) (hobj : os.obj = some rx)
     (hsim : SimCore Z st rx) (g : GenEv Z p s) (hoti : st.oti.isSome = true) (hn : Z.S.n ≠ 0) (h : push Z.P st p = .ok st') :
     Rel Z st' (Session.pushObj Z.dec Z.rc Z.oc os rx s) :=
-  push_known_nonempty Z H st st' os rx p s hg hr hrec hobj hsim g hoti hn h
+  push_known_nonempty Z (steps_of_block Z hZ (blockStep_of_contract Z hZ hC)) st st' os rx p s hg hr hrec hobj hsim g hoti hn h
 
 /-- DISCHARGED step: the first packet with EXT_FTI of a non-empty object -/
-theorem first_inband_packet_step (Z : Setting) (hZ : Z.OK) (H : Steps Z) (st st' : St) (os : Session.OState) (rx : Session.ORx)
+theorem first_inband_packet_step (Z : Setting) (hZ : Z.OK) (hC : CodecDec Z) (st st' : St) (os : Session.OState) (rx : Session.ORx)
     (p : Pkt) (s : Session.Sym) (hg : Good Z st) (hr : Rel Z st os) (hrec : st.state = .receiving) (hobj : os.obj = some rx)
     (hsim : SimCore Z st rx) (g : GenEv Z p s) (hoti : st.oti = none) (hin : Z.oc.inbandFti = true) (hn : Z.S.n ≠ 0)
     (h : push Z.P st p = .ok st') : Rel Z st' (Session.pushObj Z.dec Z.rc Z.oc os rx s) :=
-  push_first_inband Z hZ H st st' os rx p s hg hr hrec hobj hsim g hoti hin hn h
+  push_first_inband Z hZ (steps_of_block Z hZ (blockStep_of_contract Z hZ hC)) st st' os rx p s hg hr hrec hobj hsim g hoti hin hn h
 
-/-- DISCHARGED step (no hypothesis from `Steps`): a packet of the empty object -/
+/-- DISCHARGED step: a packet of the empty object -/
 theorem empty_object_step (Z : Setting) (hZ : Z.OK) (st st' : St) (os : Session.OState) (rx : Session.ORx) (p : Pkt)
     (s : Session.Sym) (hg : Good Z st) (hr : Rel Z st os) (hrec : st.state = .receiving) (hsim : SimCore Z st rx) (g : GenEv Z p s)
     (hk : st.oti.isSome = true ∨ Z.oc.inbandFti = true) (hn : Z.S.n = 0) (h : push Z.P st p = .ok st') :
@@ -119,12 +131,12 @@ theorem empty_object_step (Z : Setting) (hZ : Z.OK) (st st' : St) (os : Session.
   push_empty Z hZ st st' os rx p s hg hr hrec hsim g hk hn h
 
 /-- DISCHARGED step: the close-object flag -/
-theorem close_flag_step (Z : Setting) (H : Steps Z) (st st1 : St) (b : Bool) (os : Session.OState) (rx : Session.ORx) (p : Pkt)
+theorem close_flag_step (Z : Setting) (hZ : Z.OK) (hC : CodecDec Z) (st st1 : St) (b : Bool) (os : Session.OState) (rx : Session.ORx) (p : Pkt)
     (s : Session.Sym) (hg : Good Z st) (hr : Rel Z st os) (hrec : st.state = .receiving) (hobj : os.obj = some rx)
     (hsim : SimCore Z st rx) (g : GenEv Z p s) (hoti : st.oti.isSome = true) (hn : Z.S.n ≠ 0)
     (h : pushToBlock Z.P st p = .ok (st1, b)) :
     Rel Z (if b then st1 else error st1 false) (Session.finish Z.oc os (Session.pushSym Z.dec Z.rc Z.oc rx s)) :=
-  block_step Z H st st1 b os rx p s hg hr hrec hobj hsim g hoti hn h
+  block_step Z (steps_of_block Z hZ (blockStep_of_contract Z hZ hC)) st st1 b os rx p s hg hr hrec hobj hsim g hoti hn h
 
 /-- DISCHARGED step: `attach_fdt` with the File entry of the object on a live, not yet attached object -/
 theorem attach_step (Z : Setting) (hZ : Z.OK) (hC : CodecDec Z) (st st' : St) (b : Bool) (os : Session.OState) (rx : Session.ORx)
@@ -214,10 +226,29 @@ theorem observe_complete_reaches_objrecv_bytes (Z : Setting) (hZ : Z.OK) (hC : C
     ∃ st', runL Z.P (St.new toi Z.maxSize) ops = .ok st' ∧ ¬ noComplete st'.out ∧ st'.written = Z.S.T :=
   session_runObj_complete_reaches_objrecv_bytes Z hZ hC toi {} _ ops rfl rfl ⟨rfl, rfl, rfl, rfl⟩ hh hlife hc
 
+/-- ... and in BOTH directions, for all four outcomes: over one life of the object the counters `Session.observe` reports (the `o/c/e/i`
+    the engine of C01 / C02 / C16 compares with the real receiver) ARE the numbers of open / complete / error / interrupted calls the
+    line-by-line model's writer received -/
+theorem observe_counters_are_objrecv_writer_calls (Z : Setting) (hZ : Z.OK) (hC : CodecDec Z) (toi : Nat)
+    (decF : (k p : Nat) → List Nat → Bool) (s : Session.SessCfg) (ps : List Session.Pkt) (ops : List Op)
+    (hh : Hist Z ops (lifeL false none (Session.eventsFor decF Z.rc s Z.oc Session.fdtRx0 ps)))
+    (hlife : aliveRun Z { obj := some Session.rx0 } (lifeL false none (Session.eventsFor decF Z.rc s Z.oc Session.fdtRx0 ps)) = true) :
+    ∃ st', runL Z.P (St.new toi Z.maxSize) ops = .ok st' ∧
+      (Session.observe decF Z.dec Z.rc s Z.oc ps).opens = cnt isOpenOk st'.out ∧
+      (Session.observe decF Z.dec Z.rc s Z.oc ps).completes = cnt isComplete st'.out ∧
+      (Session.observe decF Z.dec Z.rc s Z.oc ps).errors = cnt isError st'.out ∧
+      (Session.observe decF Z.dec Z.rc s Z.oc ps).interrupts = cnt isInterrupted st'.out := by
+  have h := runObj_life_is_objRun Z {} (Session.eventsFor decF Z.rc s Z.oc Session.fdtRx0 ps) rfl rfl ⟨rfl, rfl, rfl, rfl⟩ hlife
+  obtain ⟨st', h1, h2, h3, h4, h5⟩ := counters_are_writer_calls Z hZ hC toi ops _ hh
+  exact ⟨st', h1, h.1.trans h5, h.2.1.trans h2, h.2.2.1.trans h3, h.2.2.2.trans h4⟩
+
 /-! ### NON-VACUITY: every hypothesis of the headline theorems holds for a concrete setting and a concrete history -/
 
 /-- the codec contract holds for Compact No-Code (any `Params.codec`) -/
 theorem codec_contract_holds_for_nocode (Z : Setting) (N : NoCodeSetting Z) : CodecDec Z := codecDec_noCode Z N
+
+/-- ... and for Reed-Solomon, from the contract `RsTotal` on `reconstruct` alone -/
+theorem codec_contract_holds_for_rs (Z : Setting) (N : RsSetting Z) : CodecDec Z := codecDec_rs Z N
 
 def o0 : Oti := ⟨.noCode, 2, 2, 0, none⟩
 
@@ -332,5 +363,120 @@ theorem composed_theorem_applies :
     [.fdt true, .pkt ⟨1, 0, false⟩, .pkt ⟨0, 1, false⟩, .fdt true, .pkt ⟨0, 0, false⟩] _ rfl rfl ⟨rfl, rfl, rfl, rfl⟩
     (.cons (.att fileOK0) (.cons (.pkt genEv0_10) (.cons (.pkt genEv0_01) (.cons (.att fileOK0) (.cons (.pkt genEv0_00) .nil)))))
     (by decide) (by decide)
+
+/-! ### the same for Reed-Solomon, THROUGH `reconstruct`: the 1-byte object [7], one block of k = 1 source + p = 1 parity symbol
+(both symbols are [7]: the systematic code of one source symbol repeats it), received from its PARITY symbol only -/
+
+/-- a codec whose `reconstruct` returns the genuine table of that object (all slots [7]) -/
+def codecR : Codec :=
+  { C09.codec0 with rsNewOk := fun _ _ => true, rsReconstruct := fun k p _ => some (List.replicate (k + p) (some [7])) }
+
+def oR : Oti := ⟨.rs28, 1, 1, 1, none⟩
+
+def SR : GSess :=
+  { T := [7], o := oR, aL := 1, aS := 1, nL := 0, n := 1, K := fun _ => 1, sym := fun _ _ => [7], D := fun _ => [7],
+    pre := fun i => if i = 0 then [] else [7] }
+
+theorem slotsOK_const (n i : Nat) : SlotsOK (fun _ => [7]) i (List.replicate n (some [7])) := by
+  induction n generalizing i with
+  | zero => simp [SlotsOK]
+  | succ n ih => simp [List.replicate_succ, SlotsOK, ih]
+
+theorem SR_laws : SR.Laws codecR where
+  quad := rfl
+  kRecv := by
+    intro sbn h
+    have h1 : sbn < 1 := h
+    have : sbn = 0 := by omega
+    subst this
+    decide
+  dSrc := by intro _ sbn _; rfl
+  codec := by
+    intro sbn _
+    refine ⟨?_, (fun h => by cases h), (fun h => by cases h)⟩
+    intro _ p shards shards' _ hr
+    have h2 : codecR.rsReconstruct (SR.K sbn) p shards = some (List.replicate (SR.K sbn + p) (some [7])) := rfl
+    rw [h2] at hr
+    cases hr
+    exact slotsOK_const _ _
+  pre0 := rfl
+  preS := by
+    intro sbn h
+    have h1 : sbn < 1 := h
+    have : sbn = 0 := by omega
+    subst this
+    decide
+  preN := rfl
+
+def ZR : Setting :=
+  { P := { C09.P0 true with codec := codecR }, S := SR,
+    oc := { toi := 1, scheme := .rs, ks := #[1], blen := #[1], p := 1, inbandFti := false, transfers := 1,
+            carousel := false, noCache := false, pktLen := 20, lastPktLen := 20 },
+    rc := { receiveOnce := true, maxSize := 1000, pktCap := some 1000 },
+    dec := Session.canDecodeOf .rs, maxSize := 1000 }
+
+theorem lt1 {b : Nat} (h : b < 1) : b = 0 := by omega
+
+theorem ZR_ok : ZR.OK where
+  laws := SR_laws
+  nblocks := rfl
+  ks := by intro b hb; have := lt1 hb; subst this; rfl
+  empty := by intro h; cases h
+  max := rfl
+  look := rfl
+  cap := rfl
+  small := by decide
+  env := fun _ => ⟨rfl, rfl, fun _ => rfl⟩
+  dz := ⟨DzOK.ofNoData _ (fun _ _ _ _ h => by cases h) (fun _ => by show (0 : Nat) < 10; omega)⟩
+  decExt := by
+    intro k p a b h
+    show decide (k ≤ Session.countDistinctBelow (k + p) a) = decide (k ≤ Session.countDistinctBelow (k + p) b)
+    have : Session.countDistinctBelow (k + p) a = Session.countDistinctBelow (k + p) b := by
+      unfold Session.countDistinctBelow
+      apply List.countP_congr
+      intro x _
+      simp only [List.contains_eq_mem, decide_eq_true_eq]
+      exact h x
+    rw [this]
+  decNil := by intro b hb; have := lt1 hb; subst this; decide
+  preLt := by intro k hk; have := lt1 hk; subst this; decide
+
+theorem ZR_rs : RsSetting ZR where
+  scheme := .inl rfl
+  oscheme := .inl rfl
+  dec := rfl
+  ks := ZR_ok.ks
+  par := rfl
+  k := fun _ _ => by show 0 < 1; omega
+  newOk := fun _ _ => rfl
+  total := ⟨fun k p shards _ _ => ⟨_, rfl, fun j hj => by
+    show isSomeAt (List.replicate (k + p) (some [7])) j = true
+    have hj2 : j < k + p := by omega
+    simp [isSomeAt, List.getElem?_replicate, hj2]⟩⟩
+
+/-- the PARITY symbol (ESI 1) of the block -/
+def pkR : Pkt :=
+  { toi := 1, cp := .rs28, close := false, fti := none, cenc := none, pid := [0, 0, 0, 1], payload := [7], dataLen := 20 }
+
+def feR : FileEntry := { oti := some oR, tl := 1, cl := some 1, cenc := .null, md5 := none, noCache := false }
+
+theorem genEvR : GenEv ZR pkR ⟨0, 1, false⟩ := by
+  refine ⟨⟨.inl rfl, .inl rfl, ⟨0, 1, none⟩, rfl, fun _ => ⟨by decide, rfl, .inl rfl⟩⟩, rfl, rfl, rfl, by decide,
+    (fun o l hh => by cases hh), by decide, by decide, ?_⟩
+  intro pid hpid
+  have h2 : parsePayloadId ZR.S.o pkR = .ok (some ⟨0, 1, none⟩) := rfl
+  rw [h2] at hpid
+  cases hpid
+  exact ⟨fun _ => rfl, fun l hl => by cases hl⟩
+
+theorem fileOKR : FileOK ZR feR :=
+  ⟨⟨.inr rfl, rfl, rfl⟩, rfl, rfl, .inr rfl, by decide, fun o ho => by cases ho; decide⟩
+
+/-- the headline theorem applies to a Reed-Solomon object received from its parity symbol only: the FDT, then ESI 1 - `decode` goes
+    through `reconstruct` (no source symbol was received), the writer is told `complete` with the object's byte -/
+theorem headline_theorems_apply_rs :
+    ∃ st', runL ZR.P (St.new 1 1000) [.attach 7 (some feR), .push pkR] = .ok st' ∧ ¬ noComplete st'.out ∧ st'.written = [7] :=
+  session_complete_is_exact ZR ZR_ok (codecDec_rs ZR ZR_rs) 1 _ [.att, .pkt ⟨0, 1, false⟩]
+    (.cons (.att fileOKR) (.cons (.pkt genEvR) .nil)) (by decide)
 
 end Flute.Props.C02.Link
